@@ -480,12 +480,12 @@ Proof.
   destruct pv as [s v]. apply Hr in Hin as (Hl & _). now apply Hall in Hl.
 Qed.
 
-Theorem sub_remove1_sim tr n t :
-  Inv tr -> tsim tr t -> noti_wf n ->
+Theorem gen_remove1_sim ed tr n t :
+  Inv tr -> tsim_ed ed tr t -> noti_wf n ->
   match SubModel.gnmi_remove1 tr n with
   | SubModel.URes tr' feed err =>
       let r := gnmi_remove t (sub_notif n) in
-      Inv tr' /\ tsim tr' (fst r) /\ err = false /\
+      Inv tr' /\ tsim_ed ed tr' (fst r) /\ err = false /\
       exists removed, snd r = Ok removed /\
                       render_deletes removed (SubModel.n_ts n) = map sub_notif feed
   | SubModel.UPanic => exists w, snd (gnmi_remove t (sub_notif n)) = Panic w
@@ -537,6 +537,19 @@ Proof.
   - split; [split; [reflexivity|exact Hcfg]|]. split; [reflexivity|].
     exists (x :: xs). split; [reflexivity|]. exact Hren.
 Qed.
+
+Theorem sub_remove1_sim tr n t :
+  Inv tr -> tsim tr t -> noti_wf n ->
+  match SubModel.gnmi_remove1 tr n with
+  | SubModel.URes tr' feed err =>
+      let r := gnmi_remove t (sub_notif n) in
+      Inv tr' /\ tsim tr' (fst r) /\ err = false /\
+      exists removed, snd r = Ok removed /\
+                      render_deletes removed (SubModel.n_ts n) = map sub_notif feed
+  | SubModel.UPanic => exists w, snd (gnmi_remove t (sub_notif n)) = Panic w
+  | SubModel.UMeta => True
+  end.
+Proof. exact (gen_remove1_sim true tr n t). Qed.
 
 (** * Target.GnmiUpdate *)
 
